@@ -39,7 +39,9 @@ impl HttpError {
     #[verifier::external_body]
     pub fn description(&self) -> String { unimplemented!() }
 }
-pub assume_specification [std::string::String::into_bytes] (_0: std::string::String) -> std::vec::Vec<u8>;
+// String::into_bytes (assumed): the UTF-8 form of the text (uninterpreted `text_bytes`)
+pub assume_specification [std::string::String::into_bytes] (_0: std::string::String) -> (r: std::vec::Vec<u8>)
+    ensures r@ == text_bytes(_0@);
 
 // Cookie and its Set-Cookie text (src/cookie.rs; proved in unit cookie, C15): here only that the conversion is a function of
 // the cookie
